@@ -136,7 +136,7 @@ impl Prop for C15Prop {
                 // a graph of thousands of edges (strategy thresholds), then a short tail
                 let regime = gen::regime_any(&mut hr, true);
                 let mut wr = Rng::new(seed, "workload.huge");
-                case.ops = gen::gen_huge_history(&mut wr, specs, regime, true);
+                case.ops = gen::gen_huge_history_v(&mut wr, specs, regime, true, &[0, 0, 1, 2]);
                 case.params.put("source", crate::core::json::J::s("history loading thousands of edges"));
                 case.envs = vec![Env { keying: if hr.chance(1, 2) { 0 } else { seed | 1 }, pool: if hr.chance(1, 8) { 1 } else { 2 + hr.below(15) }, sched: crate::core::rng::mix(seed, 78) }];
                 return case;
@@ -180,7 +180,7 @@ impl Prop for C15Prop {
         let _ = (results, cx);
     }
     fn rule(&self) -> String {
-        "lifecycle histories over all 96 specs in which get_subgraph / reverse / set_all_edge_weights / to_single_edges are applied at random points (source = a graph produced by duplicate policies, re-added nodes, restarts) and the history continues on the result; each derived op: outcome (WrongMethod for the wrong kind), result vs the model's definition (nodes in original order with attributes, exact edge multiset, summed weights at 1e-9), result specs, source graph unchanged, reverse twice = identity, C02/C03 oracles on the result, C01 oracles on the continued history; 2 hash keyings. distinct_nontrivial = distinct (specs, history) with >= 1 derived operation executed; one case in 2500 loads 2 100 - 12 500 edges (one to three batches or the constructor, same edge values re-submitted on multi-edge graphs) into 45-180 nodes and continues with a short tail (strategy thresholds)".into()
+        "lifecycle histories over all 96 specs in which get_subgraph / reverse / set_all_edge_weights / to_single_edges are applied at random points (source = a graph produced by duplicate policies, re-added nodes, restarts) and the history continues on the result; each derived op: outcome (WrongMethod for the wrong kind), result vs the model's definition (nodes in original order with attributes, exact edge multiset, summed weights at 1e-9), result specs, source graph unchanged, reverse twice = identity, C02/C03 oracles on the result, C01 oracles on the continued history; 2 hash keyings. distinct_nontrivial = distinct (specs, history) with >= 1 derived operation executed; one case in 2500 loads 2 100 - 12 500 edges (one to three batches or the constructor, same edge values re-submitted on multi-edge graphs) into 45-180 nodes and continues with a short tail (strategy thresholds); the large histories come in variants: dense (45-180 nodes), 2 048 - 2 600 nodes declared in one call, a hub with 1 100 - 1 600 neighbours; in half of them a load of 260-420 edges into ANOTHER graph is rejected part-way on the same thread first (fault, then recovery, at scale)".into()
     }
     fn assumptions(&self) -> Vec<String> {
         vec!["edge attributes of to_single_edges results are not specified and not compared".into(), "summed weights compared at 1e-9 relative (then adopted by the model)".into()]
